@@ -11,6 +11,12 @@ MAX_ANGLE = np.pi / 2 - MIN_ANGLE
 __all__ = ["solve_box_like", "solve_r123", "solve_r124", "solve_r1234"]
 
 
+def _check_finite(**values):
+    for name, value in values.items():
+        if value is not None and not np.isfinite(value):
+            raise ValueError(f"Groove argument {name} has to be finite.")
+
+
 def _check_flank_arguments(flank_angle, flank_width, flank_height, flank_length):
     if sum(v is not None for v in (flank_angle, flank_width, flank_height, flank_length)) > 1:
         raise TypeError("Give at most one of flank_angle, flank_width, flank_height and flank_length.")
@@ -29,6 +35,7 @@ def solve_r124(
     r4: float = 0,
     indent: float = 0,
 ):
+    _check_finite(**locals())
     _check_flank_arguments(flank_angle, flank_width, flank_height, flank_length)
 
     def l23(_alpha):
@@ -157,6 +164,7 @@ def solve_r123(
     flank_height: Optional[float] = None,
     flank_length: Optional[float] = None,
 ):
+    _check_finite(**locals())
     _check_flank_arguments(flank_angle, flank_width, flank_height, flank_length)
 
     def l23(_alpha):
@@ -278,6 +286,7 @@ def solve_r1234(
     flank_height: Optional[float] = None,
     flank_length: Optional[float] = None,
 ):
+    _check_finite(**locals())
     _check_flank_arguments(flank_angle, flank_width, flank_height, flank_length)
 
     def l23(_alpha):
@@ -441,6 +450,7 @@ def solve_box_like(
     usable_width: Optional[float],
     flank_angle: Optional[float],
 ):
+    _check_finite(**locals())
     alpha4 = np.arccos(1 - indent / (r2 + r4))
 
     if flank_angle is None:
